@@ -348,6 +348,102 @@ func fixedC16(c *Ctx) {
 				"expansion_out": Hx(outputOf(ra)), "original_out": Hx(outputOf(rb)), "build": ea + eb})
 		}
 	}
+	// deep chains of rendered files with many variables each (register files grow past their first 512 slots)
+	for _, dc := range []struct {
+		n, vars int
+		typ     string
+	}{{4, 100, "string"}, {8, 100, "string"}, {12, 60, "string"}, {8, 120, "int"}, {6, 90, "string"}, {10, 50, "int"}} {
+		chain := map[string]string{}
+		for i := 0; i < dc.n; i++ {
+			var b strings.Builder
+			for v := 0; v < dc.vars; v++ {
+				if dc.typ == "int" {
+					fmt.Fprintf(&b, "{%% var x%d = %d %%}", v, v+i)
+				} else {
+					fmt.Fprintf(&b, "{%% var x%d = \"s%d_%d\" %%}", v, i, v)
+				}
+			}
+			fmt.Fprintf(&b, "<%d:{{ x0 }}{{ x%d }}", i, dc.vars-1)
+			if i+1 < dc.n {
+				fmt.Fprintf(&b, "{{ render \"d%d.html\" }}", i+1)
+			}
+			fmt.Fprintf(&b, "{{ x%d }}>", dc.vars/2)
+			chain[fmt.Sprintf("d%d.html", i)] = b.String()
+		}
+		withIndex := func(src string) map[string]string {
+			m := map[string]string{"index.html": src}
+			for k, v := range chain {
+				m[k] = v
+			}
+			return m
+		}
+		type cmp struct {
+			law    string
+			a, b   map[string]string
+			am, bm string
+		}
+		for _, x := range []cmp{
+			{"render_equals_show_of_value", withIndex(`[{{ render "d0.html" }}]`), withIndex(`{% var v = render "d0.html" %}[{{ v }}]`), "index.html", "index.html"},
+			{"render_equals_standalone", withIndex(`{{ render "d0.html" }}`), chain, "index.html", "d0.html"},
+		} {
+			c.Count("evaluations")
+			ra, ea := runSources(x.a, x.am, true)
+			rb, eb := runSources(x.b, x.bm, true)
+			det := map[string]any{"law": x.law, "expansion": x.a, "original": x.b, "expansion_main": x.am, "original_main": x.bm, "conv": true,
+				"chain": fmt.Sprintf("%d files x %d %s variables", dc.n, dc.vars, dc.typ)}
+			if ea != "" || eb != "" {
+				det["build"] = ea + " / " + eb
+				c.Fail(x.law+":one-side-does-not-build", det)
+				continue
+			}
+			if strings.HasPrefix(ra.res, "hostpanic") || strings.HasPrefix(rb.res, "hostpanic") {
+				det["expansion_out"], det["original_out"] = ra.res, rb.res
+				c.Fail("host-panic:deep-render-chain", det)
+				continue
+			}
+			if ra.res != rb.res || outputOf(ra) != outputOf(rb) || !strings.Contains(outputOf(ra), fmt.Sprintf("<%d:", dc.n-1)) {
+				det["expansion_out"], det["original_out"] = Hx(outputOf(ra))+" "+ra.res, Hx(outputOf(rb))+" "+rb.res
+				c.Fail(x.law, det)
+				continue
+			}
+			c.Count("nontrivial")
+			c.Count("deep-chains")
+		}
+	}
+	// corpus of repaired and recorded composition defects: (signature, a, main of a, b, main of b, known finding?)
+	for _, x := range []struct {
+		sig    string
+		a      map[string]string
+		am     string
+		b      map[string]string
+		bm     string
+		known  bool
+		suffix bool // the output of b must be a suffix of the output of a
+	}{
+		// repaired: a classic for with continue in a file rendered inside a for range statement
+		{"render-in-range-continue",
+			map[string]string{"index.html": `{% for v in []int{1,2} %}{{ render "x.html" }}{% end %}`, "x.html": `[{% for i := 0; i < 3; i++ %}{% if i == 1 %}{% continue %}{% end %}{{ i }}{% end %}]`}, "index.html",
+			map[string]string{"index.html": `{{ render "x.html" }}{{ render "x.html" }}`, "x.html": `[{% for i := 0; i < 3; i++ %}{% if i == 1 %}{% continue %}{% end %}{{ i }}{% end %}]`}, "index.html", false, false},
+		// repaired: the for list of an import
+		{"import-for-list-ignored",
+			map[string]string{"index.html": `{% import "b.html" %}{% import "a.html" for Hello %}{{ Hello() }}{{ Helper() }}`,
+				"a.html": `{% macro Hello %}hello-a{% end %}{% macro Helper %}helper-a{% end %}`, "b.html": `{% macro Helper %}helper-b{% end %}`}, "index.html",
+			map[string]string{"index.html": `{% import "b.html" %}{% import "a.html" %}{{ Hello() }}{{ Helper() }}`,
+				"a.html": `{% macro Hello %}hello-a{% end %}`, "b.html": `{% macro Helper %}helper-b{% end %}`}, "index.html", false, false},
+		// recorded: the variables of a file imported by two rendered files are initialised inside the first rendering only
+		{"import-init-only-in-first-render",
+			map[string]string{"index.html": `{% if len("x") == 2 %}{{ render "a.html" }}{% end %}{{ render "b.html" }}`,
+				"a.html": `{% import "vars.html" %}a{{ Count }}`, "b.html": `{% import "vars.html" %}b{{ Count }}`, "vars.html": `{% var Count = 10 %}`}, "index.html",
+			map[string]string{"b.html": `{% import "vars.html" %}b{{ Count }}`, "vars.html": `{% var Count = 10 %}`}, "b.html", true, false},
+	} {
+		c.Count("evaluations")
+		ra, ea := runSources(x.a, x.am, true)
+		rb, eb := runSources(x.b, x.bm, true)
+		if ea != "" || eb != "" || ra.res != rb.res || outputOf(ra) != outputOf(rb) {
+			c.Fail(x.sig, map[string]any{"law": x.sig, "known": x.sig, "expansion": x.a, "original": x.b, "expansion_main": x.am, "original_main": x.bm, "conv": true,
+				"expansion_out": Hx(outputOf(ra)) + " " + ra.res, "original_out": Hx(outputOf(rb)) + " " + rb.res, "build": ea + eb})
+		}
+	}
 	// the recorded finding: a macro with a deferred call taken as a value
 	a := map[string]string{"index.html": `{% macro M %}{% defer func() { }() %}abc{% end %}[{{ M() }}]`}
 	b := map[string]string{"index.html": `{% macro M %}{% defer func() { }() %}abc{% end %}{% var v = M() %}[{{ v }}]`}
